@@ -1,4 +1,169 @@
+/-
+  Properties/C16.lean — property theorems for C16 (named access and flat storage).
+  Only statements of the property live here; helper lemmas are in Proofs/.
+-/
 import SolverzModel.Core.Vars
+import SolverzModel.Proofs.Address
+import SolverzModel.Proofs.Vars
 namespace Solverz
-theorem C16_placeholder : True := trivial
+open Address Heap
+
+/-- **Layout.** For a layout with distinct names, the range of the `i`-th declared variable is
+`[start i, start i + len i)`, the first starts at 0, each next one starts where the previous
+one ends, and the last one ends at `total`: contiguous, disjoint, covering, in declaration order. -/
+theorem C16_layout (a : Address) (h : a.WF) :
+    (∀ i (hi : i < a.names.length), a.range? a.names[i] = some (a.start i, a.lens.getD i 0))
+    ∧ a.start 0 = 0
+    ∧ (∀ i, i < a.lens.length → a.start (i+1) = a.start i + a.lens.getD i 0)
+    ∧ a.start a.lens.length = a.total :=
+  ⟨fun i hi => range_of_nodup a h.1 i hi, start_zero a, fun i hi => start_succ a i hi, start_length a⟩
+
+/-- ranges of different variables do not overlap -/
+theorem C16_disjoint (a : Address) (i j : Nat) (hij : i < j) (hj : j < a.lens.length) :
+    a.start i + a.lens.getD i 0 ≤ a.start j := by
+  rw [← start_succ a i (by omega)]
+  exact start_mono a hij
+
+/-- every range lies inside the flat array -/
+theorem C16_range_within (a : Address) (i : Nat) (hi : i < a.lens.length) :
+    a.start i + a.lens.getD i 0 ≤ a.total := by
+  rw [← start_succ a i hi]; exact start_le_total a _
+
+/-- the name → slice lookup answers exactly for declared names -/
+theorem C16_slice_iff (a : Address) (n : String) :
+    (∃ r, a.slice n = .ok r) → n ∈ a.names := by
+  intro ⟨r, hr⟩
+  unfold Address.slice at hr
+  cases hq : a.range? n with
+  | none => simp [hq] at hr
+  | some p =>
+    unfold range? at hq
+    cases hi : a.idx? n with
+    | none => simp [hi] at hq
+    | some i =>
+      have := idx_getElem a n i hi
+      rw [← this]; exact List.getElem_mem _
+
+/-- `add` and `update` keep a layout well-formed; a duplicate name is refused -/
+theorem C16_add_wf (a : Address) (h : a.WF) (n : String) (len : Nat) :
+    (n ∈ a.names → a.add n len = .error .key) ∧
+    (n ∉ a.names → ∃ b, a.add n len = .ok b ∧ b.WF ∧ b.names = a.names ++ [n] ∧ b.lens = a.lens ++ [len]) := by
+  constructor
+  · intro hn; simp [Address.add, hn]
+  · intro hn
+    refine ⟨⟨a.names ++ [n], a.lens ++ [len]⟩, by simp [Address.add, hn], ?_, rfl, rfl⟩
+    refine ⟨?_, by simp [h.2]⟩
+    refine List.nodup_append.mpr ⟨h.1, by simp, ?_⟩
+    intro x hx y hy hxy
+    simp only [List.mem_singleton] at hy
+    subst hy; subst hxy; exact hn hx
+
+theorem C16_update_wf (a : Address) (h : a.WF) (n : String) (len : Nat) (b : Address)
+    (hu : a.update n len = .ok b) : b.WF ∧ b.names = a.names ∧ b.lens.length = a.lens.length := by
+  unfold Address.update at hu
+  split at hu
+  · cases hu
+  · cases hu; exact ⟨⟨h.1, by simp [h.2]⟩, rfl, by simp⟩
+
+/-- **Read by name** returns exactly the variable's slice of the flat array. -/
+theorem C16_get (α) (h : Heap α) (vid : Nat) (n : String) (v : VarsObj α) (a : Address) (s e : Nat)
+    (hv : h.getVars vid = .ok v) (ha : h.getAddr v.aid = .ok a) (hs : a.slice n = .ok (s, e)) :
+    h.varsGet vid n = .ok (readSlice v.arr s (e - s)) := by
+  simp [Heap.varsGet, hv, ha, hs, bind, Except.bind]
+
+/-- **Assign by name** touches exactly that slice: afterwards the slice holds the new values,
+every other position of the flat array and every other object is unchanged; a value of the
+wrong length is refused. -/
+theorem C16_set (α) (h : Heap α) (vid : Nat) (n : String) (val : List α) (v : VarsObj α) (a : Address) (s e : Nat)
+    (hv : h.getVars vid = .ok v) (ha : h.getAddr v.aid = .ok a) (hs : a.slice n = .ok (s, e))
+    (hfit : e ≤ v.arr.length) (hse : s ≤ e) :
+    (val.length ≠ e - s → h.varsSet vid n val = .error .value) ∧
+    (val.length = e - s → ∃ h', h.varsSet vid n val = .ok h' ∧
+        h'.addrs = h.addrs ∧ h'.bufs = h.bufs ∧ h'.tvs = h.tvs ∧
+        h'.vars = setAt h.vars vid ⟨v.aid, writeSlice v.arr s val⟩ ∧
+        (writeSlice v.arr s val).length = v.arr.length ∧
+        readSlice (writeSlice v.arr s val) s (e - s) = val ∧
+        (∀ j, j < s ∨ e ≤ j → (writeSlice v.arr s val)[j]? = v.arr[j]?)) := by
+  have hr : ∃ p, a.range? n = some p := by
+    unfold Address.slice at hs
+    cases hq : a.range? n with
+    | none => simp [hq] at hs
+    | some p => exact ⟨p, rfl⟩
+  obtain ⟨p, hp⟩ := hr
+  constructor
+  · intro hne
+    simp [Heap.varsSet, hv, ha, hs, hp, bind, Except.bind, hne]
+  · intro heq
+    refine ⟨{ h with vars := setAt h.vars vid ⟨v.aid, writeSlice v.arr s val⟩ }, ?_, rfl, rfl, rfl, rfl, ?_, ?_, ?_⟩
+    · simp [Heap.varsSet, hv, ha, hs, hp, bind, Except.bind, heq]
+    · exact writeSlice_length v.arr s val (by omega)
+    · rw [← heq]; exact readSlice_writeSlice v.arr s val (by omega)
+    · intro j hj; exact writeSlice_getElem?_outside v.arr s val j (by omega)
+
+/-- **Arithmetic with a scalar** (any operator, either side): the result is a *new* object
+(index = old object count), element-wise, every operand and bystander is unchanged. -/
+theorem C16_arith_scalar (α) (A : Arith α) (h : Heap α) (vid : Nat) (op : BinOp) (left : Bool) (x : α)
+    (v : VarsObj α) (a : Address) (hv : h.getVars vid = .ok v) (ha : h.getAddr v.aid = .ok a)
+    (hlen : v.arr.length = a.total) :
+    ∃ h' aid', h.varsArith A vid op left (.scalar x) = .ok (h', .vars h.vars.length) ∧
+      h'.vars = h.vars ++ [⟨aid', v.arr.map (fun y => if left then A.ap op y x else A.ap op x y)⟩] ∧
+      h'.addrs[aid']? = some a ∧
+      (∀ i, i < h.addrs.length → h'.addrs[i]? = h.addrs[i]?) ∧ h'.bufs = h.bufs ∧ h'.tvs = h.tvs :=
+  varsArith_scalar A h vid op left x v a hv ha hlen
+
+/-- **Arithmetic between two same-length collections** (the left operand's method is the one
+Python dispatches): new object, element-wise, operands unchanged.  For `*` the layouts must be
+equal, otherwise the operation is refused. -/
+theorem C16_arith_vars (α) (A : Arith α) (h : Heap α) (vid wid : Nat) (op : BinOp)
+    (v w : VarsObj α) (a b : Address) (hv : h.getVars vid = .ok v) (hw : h.getVars wid = .ok w)
+    (ha : h.getAddr v.aid = .ok a) (hb : h.getAddr w.aid = .ok b)
+    (hlen : v.arr.length = a.total) (hsame : w.arr.length = v.arr.length) (hab : a.beq b = true) :
+    ∃ h' aid', h.varsArith A vid op true (.vars wid) = .ok (h', .vars h.vars.length) ∧
+      h'.vars = h.vars ++ [⟨aid', List.zipWith (A.ap op) v.arr w.arr⟩] ∧
+      h'.addrs[aid']? = some a ∧
+      (∀ i, i < h.addrs.length → h'.addrs[i]? = h.addrs[i]?) ∧ h'.bufs = h.bufs ∧ h'.tvs = h.tvs :=
+  varsArith_vars A h vid wid op v w a b hv hw ha hb hlen hsame hab
+
+theorem C16_mul_refuses_other_layout (α) (A : Arith α) (h : Heap α) (vid wid : Nat)
+    (v w : VarsObj α) (a b : Address) (hv : h.getVars vid = .ok v) (hw : h.getVars wid = .ok w)
+    (ha : h.getAddr v.aid = .ok a) (hb : h.getAddr w.aid = .ok b) (hab : a.beq b = false) :
+    h.varsArith A vid .mul true (.vars wid) = .error .value := by
+  simp [Heap.varsArith, hv, hw, ha, hb, hab, bind, Except.bind]
+
+/-- **Solver results by name.** `parse_dae_v(Y, a)[n]` is the block of columns of `Y` at the
+variable's slice, row by row. -/
+theorem C16_solver_columns (α) (h : Heap α) (aid : Nat) (Y : List (List α)) (a : Address) (n : String) (s e : Nat)
+    (ha : h.getAddr aid = .ok a) (hs : a.slice n = .ok (s, e)) (h' : Heap α) (tid : Nat)
+    (hp : h.parseDae aid Y = .ok (h', tid)) :
+    h'.tvGetName tid n = .ok (Y.map fun r => readSlice r s (e - s)) :=
+  parseDae_columns h aid Y a n s e ha hs h' tid hp
+
+/-- `parse_ae_v(y, a)[n]` is `y` restricted to the variable's slice. -/
+theorem C16_solver_slice (α) (h : Heap α) (aid : Nat) (y : List α) (a : Address) (n : String) (s e : Nat)
+    (ha : h.getAddr aid = .ok a) (hs : a.slice n = .ok (s, e)) (h' : Heap α) (vid : Nat)
+    (hp : h.parseAe aid y = .ok (h', vid)) :
+    h'.varsGet vid n = .ok (readSlice y s (e - s)) :=
+  parseAe_slice h aid y a n s e ha hs h' vid hp
+
+/-- **Every reachable state is consistent.**  Starting from the empty heap, after any finite
+sequence of operations (with `add`/`update` confined to layouts not yet bound to a
+collection, the documented usage) every collection's flat array has exactly the size of its
+layout and every time-series row has that width. -/
+theorem C16_reachable_consistent (α) (A : Arith α) (ops : List (Op α)) :
+    HeapInv (Heap.runOps A ({} : Heap α) ops) :=
+  runOps_inv A {} ops heapInv_empty
+
+/-- non-vacuity: a concrete two-variable layout is well formed and the hypotheses of the
+set/get theorems are met -/
+example : (⟨["x", "y"], [2, 3]⟩ : Address).WF ∧
+    (⟨["x", "y"], [2, 3]⟩ : Address).slice "y" = .ok (2, 5) := by
+  refine ⟨by decide, by rfl⟩
+
+/-- non-vacuity of the reachability theorem: a run that allocates, binds, assigns and does
+arithmetic ends in a heap with three collections -/
+example : (Heap.runOps (⟨(· + ·), (· - ·), (· * ·), (· / ·), 0⟩ : Arith Int) {}
+    [.anew, .aadd 0 "x" 2, .aadd 0 "y" 1, .vnew 0 [1, 2, 3], .vset 0 "y" [7],
+     .vop 0 .mul true (.scalar 2), .vop 0 .add true (.vars 1), .aupd 0 "x" 5]).vars.map (·.arr)
+    = [[1, 2, 7], [2, 4, 14], [3, 6, 21]] := by decide
+
 end Solverz
